@@ -49,10 +49,10 @@ namespace Cscr
 variable {α : Type}
 
 /-- the stored rows as a CSR matrix with `usedRows` rows -/
-def toCsr (A : Cscr α) : Csr α := ⟨A.usedRows, A.cols, A.rowPtr, A.colInd, A.val⟩
+def compressedCsr (A : Cscr α) : Csr α := ⟨A.usedRows, A.cols, A.rowPtr, A.colInd, A.val⟩
 
 structure WF (A : Cscr α) : Prop where
-  csr : A.toCsr.WF
+  csr : A.compressedCsr.WF
   rnLt : ∀ nz, nz < A.usedRows → A.rowNumbers.getD nz 0 < A.rows
   rnMono : ∀ nz, nz + 1 < A.usedRows → A.rowNumbers.getD nz 0 < A.rowNumbers.getD (nz + 1) 0
 
@@ -66,7 +66,7 @@ theorem wf_iff (A : Cscr α) : A.wf = true ↔ A.WF := by
     · intro k hk
       have hk' : k < A.colInd.size := hk
       have := h6 k hk'
-      simpa [toCsr, Array.getD, hk'] using this
+      simpa [compressedCsr, Array.getD, hk'] using this
     · intro nz hnz
       have hk' : nz < A.rowNumbers.size := hnz
       have := h7 nz hk'
@@ -78,7 +78,7 @@ theorem wf_iff (A : Cscr α) : A.wf = true ↔ A.WF := by
       fun nz hnz => h.rnMono nz (by omega)⟩
     · intro k hk
       have := h.csr.colLt k hk
-      simpa [toCsr, Array.getD, hk] using this
+      simpa [compressedCsr, Array.getD, hk] using this
     · intro nz hnz
       have := h.rnLt nz hnz
       simpa [Array.getD, hnz] using this
@@ -101,14 +101,14 @@ theorem rn_inj {A : Cscr α} (h : A.WF) {a b : Nat} (ha : a < A.usedRows) (hb : 
 variable [CommSemiring α]
 
 theorem entry_eq_sum (A : Cscr α) (i j : Nat) :
-    A.entry i j = ∑ nz ∈ range A.usedRows, (if A.rowNumbers.getD nz A.rows = i then A.toCsr.entry nz j else 0) := by
+    A.entry i j = ∑ nz ∈ range A.usedRows, (if A.rowNumbers.getD nz A.rows = i then A.compressedCsr.entry nz j else 0) := by
   unfold entry
   have : (fun (s : α) (nz : Nat) =>
       if A.rowNumbers.getD nz A.rows = i then
         foldRange (A.rowPtr.getD nz 0) (A.rowPtr.getD (nz + 1) 0)
           (fun s k => if A.colInd.getD k A.cols = j then s + A.val.getD k 0 else s) s
       else s)
-      = fun s nz => s + (if A.rowNumbers.getD nz A.rows = i then A.toCsr.entry nz j else 0) := by
+      = fun s nz => s + (if A.rowNumbers.getD nz A.rows = i then A.compressedCsr.entry nz j else 0) := by
     funext s nz
     split
     · rw [foldRange_add_if, Csr.entry_eq_sum_Ico]; rfl
@@ -116,7 +116,7 @@ theorem entry_eq_sum (A : Cscr α) (i j : Nat) :
   rw [this, List.range_eq_range', foldl_range'_add, zero_add]
   simp
 
-theorem rowSum_eq_toCsr (A : Cscr α) (x : Array α) (nz : Nat) : A.rowSum x nz = A.toCsr.rowSum x nz := rfl
+theorem rowSum_eq_toCsr (A : Cscr α) (x : Array α) (nz : Nat) : A.rowSum x nz = A.compressedCsr.rowSum x nz := rfl
 
 /-- row `i` of the dense product when `i` is the stored row `nz0` -/
 theorem rowdot_listed {A : Cscr α} (h : A.WF) (x : Array α) {nz0 : Nat} (hnz : nz0 < A.usedRows) :
@@ -199,7 +199,7 @@ theorem scatterT_getD {A : Cscr α} (h : A.WF) (x r : Array α) {j : Nat} (hj : 
     have hstep : ∀ nz, nz ∈ range A.usedRows →
         (∑ k ∈ Ico (A.rowPtr.getD (0 + nz) 0) (A.rowPtr.getD (0 + nz + 1) 0),
           (if A.colInd.getD k 0 = j then A.val.getD k 0 * x.getD (A.rowNumbers.getD (0 + nz) 0) 0 else 0))
-        = A.toCsr.entry nz j * x.getD (A.rowNumbers.getD nz 0) 0 := by
+        = A.compressedCsr.entry nz j * x.getD (A.rowNumbers.getD nz 0) 0 := by
       intro nz hnz
       rw [Finset.mem_range] at hnz
       simp only [Nat.zero_add]
@@ -208,7 +208,7 @@ theorem scatterT_getD {A : Cscr α} (h : A.WF) (x r : Array α) {j : Nat} (hj : 
       intro k hk
       rw [Finset.mem_Ico] at hk
       have hks : k < A.colInd.size := Nat.lt_of_lt_of_le hk.2 (Csr.rowEnd_le h.csr hnz)
-      have : A.toCsr.colInd.getD k A.toCsr.cols = A.colInd.getD k 0 := Csr.getD_eq_of_lt _ hks _ _
+      have : A.compressedCsr.colInd.getD k A.compressedCsr.cols = A.colInd.getD k 0 := Csr.getD_eq_of_lt _ hks _ _
       rw [this, ite_mul, zero_mul]; rfl
     rw [Finset.sum_congr rfl hstep]
     simp only [entry_eq_sum, Finset.sum_mul, ite_mul, zero_mul]
